@@ -26,7 +26,9 @@ class LinguaMakoExtractor(Extractor, MessageExtractor):
         self.filename = filename
         self.python_extractor = get_extractor("x.py")
         if fileobj is None:
-            ctx = open(filename, "r")
+            # bytes, as from Babel: the lexer decodes them with the
+            # configured encoding, a magic comment or a BOM
+            ctx = open(filename, "rb")
         else:
             ctx = contextlib.nullcontext(fileobj)
         with ctx as file_:
